@@ -2,7 +2,9 @@
 //! vh — verification harness: generates cases, runs the real engeom code, prints one line per
 //! case:  op | inputs for the Lean model | implementation result | oracle verdict
 mod util;
+mod c16;
 mod c18;
+mod gen;
 
 use util::Rng;
 
@@ -18,6 +20,7 @@ fn main() {
     std::panic::set_hook(Box::new(|_| {}));
     let mut rng = Rng::new(seed ^ (prop.bytes().fold(0u64, |a, b| a.wrapping_mul(131).wrapping_add(b as u64))));
     match prop {
+        "C16" => c16::run(&mut rng, n),
         "C18" => c18::run(&mut rng, n),
         _ => {
             eprintln!("unknown property {prop}");
